@@ -64,6 +64,13 @@ let run_case (fuel : nat) (c : Sexp.t) : (string * Sexp.t * Sexp.t option) optio
   | L [A "rename-rule"; A ctr; r] ->
     model_only (sexp_of_res (fun (r', (_, ctr')) -> L [sexp_of_rule r'; sexp_of_n ctr'])
                   (rename_rule (rule_of r) ([], n_of_string ctr)))
+  | L [A "get-rule"; A ctr; A idx; (L (A "kb" :: first :: _) as kbx)] ->
+    let kb = Ops_solve.kb_of kbx in
+    (match term_key (rule_of first).r_head with
+     | Ok key ->
+       model_only (sexp_of_res (fun (r', ctr') -> L [sexp_of_rule r'; sexp_of_n ctr'])
+                     (get_rule kb key (n_of_string idx) (n_of_string ctr)))
+     | _ -> model_only (A "panic"))
   | L [A "make-query"; ts] ->
     model_only (sexp_of_res (fun (g, ctr) -> L [sexp_of_goal g; sexp_of_n ctr]) (make_query (terms_of ts)))
   | _ -> None
